@@ -56,7 +56,7 @@ Record keeps3 (d d' : dev) : Prop := {
 Lemma keeps3_refl d : keeps3 d d. Proof. constructor; reflexivity. Qed.
 Lemma keeps3_trans a b c : keeps3 a b -> keeps3 b c -> keeps3 a c.
 Proof. intros [] []. constructor; congruence. Qed.
-Ltac k3 := constructor; frw; reflexivity.
+Ltac k3 := constructor; first [rfl_noevar | (frw; reflexivity)].
 
 Lemma relay_hi_keeps3 k d u hi : keeps3 d (relay_hi k d u hi) /\ delayed (relay_hi k d u hi) = delayed d.
 Proof. unfold relay_hi. destruct (negb (if u then hi else up_on d) && negb (if u then down_on d else hi)); split; try k3; frw; reflexivity. Qed.
@@ -285,7 +285,7 @@ Lemma same_core_refl d : same_core d d.
 Proof. constructor; try reflexivity; [apply keeps2_refl|apply keeps3_refl]. Qed.
 Lemma same_core_trans a b c : same_core a b -> same_core b c -> same_core a c.
 Proof. intros [] []. constructor; try congruence; [eapply keeps2_trans; eauto|eapply keeps3_trans; eauto]. Qed.
-Ltac sc := constructor; [k2|k3|frw; reflexivity|frw; reflexivity|frw; reflexivity|frw; reflexivity|frw; reflexivity].
+Ltac sc := constructor; [k2|k3|..]; first [rfl_noevar | (frw; reflexivity)].
 
 Lemma same_core_begin d : same_core d (begin_event d). Proof. unfold begin_event. sc. Qed.
 Lemma same_core_set_clock d t : same_core d (set_clock d t). Proof. unfold set_clock. sc. Qed.
